@@ -37,15 +37,64 @@ def universes(tier):
     return us
 
 
+FAULT_BATCHES = [["CCO>>CC=O", "CCO.O>>CC(=O)O", "CC(=O)C>>CC(O)C"],
+                 ["CC(=O)OCC>>CC(=O)O", "CCCO.O>>CCC(=O)O", "OCc1ccccc1>>O=Cc1ccccc1", "CC(=O)O.CCO>>CC(=O)OCC.O"]]
+
+
+def fault_job(rxns):
+    """every single failing joblib.Parallel call of one run (a worker process died): whatever
+    rows the run still returns, the solved ones must be balanced"""
+    import json
+
+    from mc import explore, oracle, pipeline
+
+    def f():
+        b = pipeline.balancer()
+        b.confidence_threshold = 0
+        b.remove_aam = True
+        import contextlib
+        import io
+
+        sink = io.StringIO()
+        with contextlib.redirect_stderr(sink), contextlib.redirect_stdout(sink):
+            rows = b.rebalance(list(rxns), output_dict=True)
+        return [pipeline.norm_row(r) for r in rows]
+
+    bad = []
+    n = [0]
+    returned = [0]
+
+    def on_exec(dev, rows, ctl):
+        n[0] += 1
+        returned[0] += len(rows)
+        for i, row in enumerate(rows):
+            if row.get("solved") and not oracle.balanced(row.get("reaction") or ""):
+                bad.append({"key": ["fault", "solved-unbalanced", row.get("solved_by")],
+                            "what": "with the Parallel call {} failing, the run returns a solved row that is unbalanced: {}".format(
+                                explore.dev_to_json(dev), row.get("reaction")), "dev": explore.dev_to_json(dev)})
+
+    explore.subtree(f, {}, ("pfail",), 1, on_exec=on_exec)
+    return {"n": n[0], "rows": returned[0], "bad": bad[:6]}
+
+
 def run(tier, seed):
     us = universes(tier)
     res = pf.drive(PROPERTY, us, seed)
+    from mc.pool import pmap
+    from mc.report import Violation
+
+    rf = pmap("checks.c01:fault_job", FAULT_BATCHES, chunk=1, seed=seed, timeout=7200)
+    for b, x in zip(FAULT_BATCHES, rf):
+        res.coverage["evaluations"] += x["rows"]
+        for v in x["bad"]:
+            res.add(Violation("fault", {"rxns": b, "deviations": v["dev"]}, None, None, v["key"], v["what"]))
+    res.coverage["single_parallel_call_failures"] = sum(x["n"] for x in rf)
     res.coverage["rule"] = (
         "every reaction L>>R with L,R multisets of size 1..2 over the molecule alphabet A01 "
         "(one molecule per pipeline shortcut), a hand-built list for seams needing larger "
         "molecules, a heavy/ionic/isotopic/stereo/mapped family, thresholds {0,0.5,1} and batch "
         "sizes {None,1,3}; thorough adds the full 14-molecule alphabet and the complete "
-        "validation corpus.  Non-trivial = distinct (stage, input) pairs of rows returned solved."
+        "validation corpus; additionally every single failing joblib.Parallel call of two template-bearing batches (solved rows that are still returned must be balanced).  Non-trivial = distinct (stage, input) pairs of rows returned solved."
     )
     res.coverage["samples"] = [us[0][1][1], us[0][1][len(us[0][1]) // 2], us[1][1][0], us[1][1][-1]]
     res.assumptions = ["RDKit parser/valence model is the composition reference",
@@ -54,4 +103,9 @@ def run(tier, seed):
 
 
 def replay(v):
+    if v.sub == "fault":
+        x = fault_job(v.case["rxns"])
+        from mc.report import Violation
+
+        return [Violation("fault", v.case, None, None, b["key"], b["what"]) for b in x["bad"] if b["key"] == v.key and b["dev"] == v.case["deviations"]][:1]
     return pf.replay_rows(v, PROPERTY)
